@@ -40,6 +40,9 @@ pub struct Profile {
     pub poly: bool,
     /// long type / constructor / destructor names (printed types wider than any layout width)
     pub long_names: bool,
+    /// object-typed positions are often filled by a jump (`exit n`) instead of a value, so that some
+    /// type instances are mentioned by declarations only
+    pub jumpy: bool,
 }
 
 impl Profile {
@@ -65,12 +68,13 @@ impl Profile {
             cns_fields: rng.chance(1, 5),
             poly: rng.chance(3, 4),
             long_names: rng.chance(1, 8),
+            jumpy: rng.chance(1, 6),
         }
     }
     pub fn describe(&self) -> String {
         format!(
-            "naming={:?} effects={:?} data={} codata={} defs={} budget={} many_params={} big={} control={} prints={} boundary={} main_args={} cns_fields={} poly={} long_names={}",
-            self.naming, self.effects, self.n_data, self.n_codata, self.n_defs, self.budget, self.many_params, self.big_xtors, self.control, self.prints, self.boundary_lits, self.main_args, self.cns_fields, self.poly, self.long_names
+            "naming={:?} effects={:?} data={} codata={} defs={} budget={} many_params={} big={} control={} prints={} boundary={} main_args={} cns_fields={} poly={} long_names={} jumpy={}",
+            self.naming, self.effects, self.n_data, self.n_codata, self.n_defs, self.budget, self.many_params, self.big_xtors, self.control, self.prints, self.boundary_lits, self.main_args, self.cns_fields, self.poly, self.long_names, self.jumpy
         )
     }
 }
@@ -565,6 +569,13 @@ impl<'r> Gen<'r> {
         let ctx = &ctx;
         if ctx.pure {
             return self.gen_pure(ty, budget, ctx);
+        }
+        if self.prof.jumpy && matches!(ty, Ty::Inst(_)) && self.rng.chance(1, 3) {
+            let actx = self.arg_ctx(ctx);
+            let arg = self.term(Ty::I64, 2, &actx);
+            self.feat("exit");
+            self.feat("exit_in_object_position");
+            return T::Exit(Box::new(arg));
         }
         // candidate forms
         #[derive(Clone, Copy, Debug)]
